@@ -58,7 +58,12 @@ func execSign(c *ectx, f []string) string {
 	}
 	// "cs"/"ns": a signature cache shared with a preceding verification of the ORIGINAL signed
 	// transaction (which populates it): the answer for the mutated one must not change
+	// "cr"/"nr": a fresh signature cache; the SAME verification is then run three times on it: a failed
+	// verification must not leave anything behind that makes a later one pass (only valid triples are cached)
 	var sc *txscript.SigCache
+	if strings.HasSuffix(f[2], "r") {
+		sc = txscript.NewSigCache(100)
+	}
 	if strings.HasSuffix(f[2], "s") {
 		sc = txscript.NewSigCache(100)
 		otx, osp := c.decTx(f[5]), c.decSpent(f[6])
@@ -70,13 +75,37 @@ func execSign(c *ectx, f []string) string {
 			}
 		}
 	}
-	res := "verified"
-	vm, err := txscript.NewEngine(spent[idx].PkScript, tx, idx, flagsFor(f[1]), sc, sh,
-		spent[idx].Value, fetcher)
-	if err != nil {
-		res = "failed"
-	} else if err := vm.Execute(); err != nil {
-		res = "failed"
+	runOnce := func() string {
+		vm, err := txscript.NewEngine(spent[idx].PkScript, tx, idx, flagsFor(f[1]), sc, sh,
+			spent[idx].Value, fetcher)
+		if err != nil {
+			return "failed"
+		}
+		if err := vm.Execute(); err != nil {
+			return "failed"
+		}
+		return "verified"
+	}
+	res := runOnce()
+	if sc != nil { // with a cache the answer must be stable under repetition (and is the repeated answer)
+		for rep := 0; rep < 2; rep++ {
+			if again := runOnce(); again != res {
+				return "sigcache-changed-answer:" + res + "/" + again
+			}
+		}
+		// the exported key-spend verifier sharing the same cache, too
+		pk0, w0 := spent[idx].PkScript, tx.TxIn[idx].Witness
+		if f[0] == "tap" && len(pk0) == 34 && pk0[0] == 0x51 && len(w0) == 1 && len(tx.TxIn[idx].SignatureScript) == 0 {
+			for rep := 0; rep < 2; rep++ {
+				api := "verified"
+				if txscript.VerifyTaprootKeySpend(pk0[2:], w0[0], tx, idx, fetcher, sh, sc) != nil {
+					api = "failed"
+				}
+				if api != res {
+					return "sigcache-changed-answer:" + res + "/api-" + api
+				}
+			}
+		}
 	}
 	// the exported key-spend verifier must agree with the interpreter on key-path spends
 	pk := spent[idx].PkScript
@@ -887,8 +916,11 @@ func genSign(g *core.Gen) {
 			if r.Bool() {
 				cache = "n" // no midstate supplied: the engine computes it itself
 			}
-			if r.Chance(1, 3) {
+			switch r.Intn(3) {
+			case 0:
 				cache += "s" // with a signature cache populated by verifying the original
+			case 1:
+				cache += "r" // fresh signature cache, the same verification repeated on it
 			}
 			cls := "sign-" + kind
 			if mk != "none" {
